@@ -21,6 +21,7 @@ import (
 	"time"
 
 	errorsmod "cosmossdk.io/errors"
+	"cosmossdk.io/store/prefix"
 	wasmkeeper "github.com/CosmWasm/wasmd/x/wasm/keeper"
 	sdk "github.com/cosmos/cosmos-sdk/types"
 	keeperutil "github.com/palomachain/paloma/v2/util/keeper"
@@ -28,7 +29,6 @@ import (
 	evmtypes "github.com/palomachain/paloma/v2/x/evm/types"
 	schedulertypes "github.com/palomachain/paloma/v2/x/scheduler/types"
 	valsettypes "github.com/palomachain/paloma/v2/x/valset/types"
-	"cosmossdk.io/store/prefix"
 	"verifharness/drv"
 	"verifharness/env"
 )
